@@ -49,6 +49,9 @@ struct Scn {
     /// the receiving endpoint's connection task does not get to run until the whole burst has arrived at its socket (a
     /// busy executor): it then finds a long backlog ready at once
     backlog: bool,
+    /// the receiving application waits in a select-like loop: a fresh `get_datagram` future for every poll, dropped when
+    /// it is not ready (the call is documented as cancel safe)
+    restart: bool,
 }
 
 fn mk(d: &D) -> Datagram {
@@ -56,6 +59,7 @@ fn mk(d: &D) -> Datagram {
 }
 
 fn exec(sc: &Scn, render: bool) -> RunOutput {
+    let _restart = crate::apps::RestartWaits::set(sc.restart);
     let a = SideCfg { opts: opts(2, 1).datagram_buffer_size(4), rng: if sc.same_flow { vec![STREAM_FLOW] } else { vec![] } };
     // (the accept queue is sized differently from the datagram queue, so that mixing the two options up shows)
     let b = SideCfg { opts: opts(2, 1).datagram_buffer_size(sc.buf).stream_buffer_size(if sc.buf >= 2 { 1 } else { 4 }), rng: vec![] };
@@ -314,7 +318,7 @@ pub fn run(args: &Args) -> Report {
             }
             // a well-formed datagram after the sweep point: refused ones must have no other effect
             list.push(D { flow: 42, host: b"ok".to_vec(), port: 7, data: b"after".to_vec() });
-            let sc = Scn { name: format!("field sweep host_len={hl} payload_len={pl}"), list, buf: 8, late_reader: false, with_stream: false, cap: 0, two_readers: false, same_flow: false, backlog: false };
+            let sc = Scn { name: format!("field sweep host_len={hl} payload_len={pl}"), list, buf: 8, late_reader: false, with_stream: false, cap: 0, two_readers: false, same_flow: false, backlog: false, restart: false };
             cases.push(Case { try_unbounded: false, max_k: u32::MAX, label: sc.name.clone(), exec: Box::new(move |r| exec(&sc, r)) });
         }
     }
@@ -326,7 +330,7 @@ pub fn run(args: &Args) -> Report {
                 for cap in if thorough { vec![0usize, 1, 2] } else { vec![0usize, 1] } {
                     let n = buf + 2;
                     let list = (0..n).map(|i| D { flow: 100 + (i as u32 % 2), host: vec![b'h', i as u8], port: 9, data: vec![i as u8; 1 + i % 3] }).collect();
-                    let sc = Scn { name: format!("burst of {n} into buffer {buf} late_reader={late} with_stream={with_stream} cap={cap}"), list, buf, late_reader: late, with_stream, cap, two_readers: false, same_flow: false, backlog: false };
+                    let sc = Scn { name: format!("burst of {n} into buffer {buf} late_reader={late} with_stream={with_stream} cap={cap}"), list, buf, late_reader: late, with_stream, cap, two_readers: false, same_flow: false, backlog: false, restart: false };
                     cases.push(Case { try_unbounded: false, max_k: u32::MAX, label: sc.name.clone(), exec: Box::new(move |r| exec(&sc, r)) });
                 }
             }
@@ -337,8 +341,19 @@ pub fn run(args: &Args) -> Report {
         for late in [false, true] {
             let n = buf + 2;
             let list = (0..n).map(|i| D { flow: STREAM_FLOW, host: vec![b's', i as u8], port: 9, data: vec![i as u8; 1 + i % 3] }).collect();
-            let sc = Scn { name: format!("burst of {n} into buffer {buf} late_reader={late} on the flow id of the stream sharing the connection"), list, buf, late_reader: late, with_stream: true, cap: 0, two_readers: false, same_flow: true, backlog: false };
+            let sc = Scn { name: format!("burst of {n} into buffer {buf} late_reader={late} on the flow id of the stream sharing the connection"), list, buf, late_reader: late, with_stream: true, cap: 0, two_readers: false, same_flow: true, backlog: false, restart: false };
             cases.push(Case { try_unbounded: false, max_k: u32::MAX, label: sc.name.clone(), exec: Box::new(move |r| exec(&sc, r)) });
+        }
+    }
+    // ---- the receiving application takes datagrams (and accepts the stream) inside a select-like loop
+    for buf in [1usize, 3] {
+        for with_stream in [false, true] {
+            for cap in [0usize, 1] {
+                let n = buf + 2;
+                let list = (0..n).map(|i| D { flow: 100 + (i as u32 % 2), host: vec![b'r', i as u8], port: 9, data: vec![i as u8; 1 + i % 3] }).collect();
+                let sc = Scn { name: format!("burst of {n} into buffer {buf} with_stream={with_stream} cap={cap}, the receiver re-creates its get_datagram / accept future at every poll"), list, buf, late_reader: false, with_stream, cap, two_readers: false, same_flow: false, backlog: false, restart: true };
+                cases.push(Case { try_unbounded: false, max_k: u32::MAX, label: sc.name.clone(), exec: Box::new(move |r| exec(&sc, r)) });
+            }
         }
     }
     // ---- a long backlog: the receiving task is kept from running until 1100 datagrams (and the Connect of a stream
@@ -347,13 +362,13 @@ pub fn run(args: &Args) -> Report {
     {
         let n = 1100usize;
         let list = (0..n).map(|i| D { flow: 300 + (i as u32 % 2), host: vec![b'b', (i % 251) as u8, (i / 251) as u8], port: 9, data: vec![(i % 256) as u8; 1 + i % 3] }).collect();
-        let sc = Scn { name: format!("backlog: {n} datagrams and a stream request arrive before the receiving task runs, buffer 2048"), list, buf: 2048, late_reader: false, with_stream: true, cap: 0, two_readers: false, same_flow: false, backlog: true };
+        let sc = Scn { name: format!("backlog: {n} datagrams and a stream request arrive before the receiving task runs, buffer 2048"), list, buf: 2048, late_reader: false, with_stream: true, cap: 0, two_readers: false, same_flow: false, backlog: true, restart: false };
         cases.push(Case { try_unbounded: false, max_k: 0, label: sc.name.clone(), exec: Box::new(move |r| exec(&sc, r)) });
     }
     // ---- two application tasks waiting in get_datagram at once: each datagram that arrives must reach one of them
     for n in [2usize] {
         let list = (0..n).map(|i| D { flow: 200 + i as u32, host: vec![], port: 1, data: vec![i as u8] }).collect();
-        let sc = Scn { name: format!("{n} datagrams for two tasks waiting in get_datagram at the same time"), list, buf: 4, late_reader: false, with_stream: false, cap: 0, two_readers: true, same_flow: false, backlog: false };
+        let sc = Scn { name: format!("{n} datagrams for two tasks waiting in get_datagram at the same time"), list, buf: 4, late_reader: false, with_stream: false, cap: 0, two_readers: true, same_flow: false, backlog: false, restart: false };
         cases.push(Case { try_unbounded: false, max_k: u32::MAX, label: sc.name.clone(), exec: Box::new(move |r| exec(&sc, r)) });
     }
     let plan = Plan {
